@@ -377,7 +377,7 @@ def run_real(ops):
                 elif kind == "reset":
                     depth = 0
                 if kind in VERDICT_OPS:
-                    satmode = (out == "true") != (kind in ("is_valid", "is_unsat"))
+                    satmode = out in ("true", "false") and (out == "true") != (kind in ("is_valid", "is_unsat"))
                 elif kind not in ("getv", "model"):
                     satmode = False
     finally:
